@@ -90,7 +90,8 @@ let register () =
         let r = AuthSimple.sa_decide_gen (fn_total "md5" md5t) (fun _ -> pqv) (fn_total "lower" low) fixed cfg
             (n_of_int 1) proto (bytes_of_token stream) (bytes_of_token param) in
         let g = AuthGate.sm_on_new_http_sub r in
-        Printf.sprintf "%s %s %s" (token_of_n g.AuthGate.go_code) (token_of_n g.AuthGate.go_listed) (token_of_bool g.AuthGate.go_wrote)
+        Printf.sprintf "%s %s %s %s %s" (token_of_n g.AuthGate.go_code) (token_of_n g.AuthGate.go_listed) (token_of_bool g.AuthGate.go_wrote)
+          (token_of_bool g.AuthGate.go_kicked) (token_of_bool g.AuthGate.go_closed)
       | _ -> "bad-args");
   Registry.register "c14.secret" (function
       | [key; stream; md5t] -> hex_of_bytes (AuthSimple.calc_secret (fn_total "md5" md5t) (bytes_of_token key) (bytes_of_token stream))
